@@ -328,6 +328,9 @@ class Explorer:
             ci = const_int(a)
             if rv[1] == "Neg" and ci is not None:
                 return ("k", -ci)
+            if rv[1] == "PtrMetadata":
+                # optimised MIR spells `slice.len()` as the pointer metadata: keep the one name rules know
+                return ("atom", "core::slice::<impl [T]>::len(%s)" % vkey(a))
             return ("atom", "%s(%s)" % (rv[1], vkey(a)))
         if k == "discr":
             v = self.read_place(st, rv[1])
@@ -582,12 +585,19 @@ class Explorer:
                 while v[0] == "not":
                     v = v[1]
                     flips += 1
-                key = vkey(v)
-                KEYVALS[key] = v
                 is_bool = t[4] == "bool"
                 mapping = None
                 if v[0] == "discr":
                     mapping = {int(a): b for a, b in v[2]}
+                if not is_bool and mapping is None and len(targets) == 1 and v[0] in ("atom", "bin", "cast"):
+                    # `switchInt(n) -> [c: A, otherwise: B]` is what optimised MIR makes of `if n == c`: record the decision
+                    # in the if-form so that rules see one idiom
+                    cval, tg = targets[0]
+                    v = ("bin", "Eq", v, ("k", int(cval)))
+                    targets = [(1, tg)]
+                    is_bool = True
+                key = vkey(v)
+                KEYVALS[key] = v
                 branches = []
                 taken_vals = []
                 for val, tg in targets:
